@@ -86,10 +86,37 @@ class ModelLock:
 
 
 _INSTALLED = {}
+_DYNAMIC = []          # model locks created by gin code at run time (through the threading proxy)
+_CURRENT = [None]      # the Sched that is currently running
+
+
+class _ThreadingProxy:
+  """What `gin.config` sees as the `threading` module: Lock / RLock create scheduler-aware model locks (a real lock
+  held by a preempted thread would block the whole exploration); everything else is the real module."""
+
+  def __init__(self, real):
+    self._real = real
+
+  def __getattr__(self, name):
+    return getattr(self._real, name)
+
+  def _make(self, reentrant):
+    ml = ModelLock('dynamic#%d' % len(_DYNAMIC), reentrant=reentrant)
+    ml.sched = _CURRENT[0]
+    _DYNAMIC.append(ml)
+    return ml
+
+  def Lock(self):  # pylint: disable=invalid-name
+    return self._make(False)
+
+  def RLock(self):  # pylint: disable=invalid-name
+    return self._make(True)
 
 
 def install_model_locks():
   """Replaces every module-level lock of gin.config by a ModelLock (idempotent). Returns name->lock."""
+  if not isinstance(vars(cfg).get('threading'), _ThreadingProxy):
+    cfg.threading = _ThreadingProxy(threading)
   for k, v in list(vars(cfg).items()):
     if isinstance(v, _LOCK_TYPES) and k not in _INSTALLED:
       ml = ModelLock(k, reentrant=isinstance(v, type(threading.RLock())))
@@ -126,7 +153,7 @@ def _shared_names():
 class Sched:
   """One controlled execution."""
 
-  def __init__(self, bodies, devs, granularity='shared', timeout=30.0):
+  def __init__(self, bodies, devs, granularity='shared', timeout=10.0):
     """devs: sparse deviations from the default policy: iterable of (point index, alternative index)."""
     self.threads = [_T(i, b) for i, b in enumerate(bodies)]
     self.devs = dict(devs)
@@ -143,6 +170,7 @@ class Sched:
     self.deadlock = False
     self.nsteps = 0
     self.nblocks = 0
+    self.hang = None
 
   # ---- called inside managed threads
   def current(self):
@@ -168,6 +196,11 @@ class Sched:
         v = False
       elif self.granularity == 'all':
         v = True
+      elif self.granularity.startswith('focus:'):
+        # only frames that mention one of the given names (in their own name or among the names they use): far fewer
+        # points, so a larger preemption bound is affordable for the code that touches one particular shared store
+        keys = self.granularity[6:].split(',')
+        v = any(k in code.co_name or any(k in n for n in code.co_names) for k in keys)
       else:
         v = bool(self.shared.intersection(code.co_names)) or code.co_name in (
             'enter_scope', 'exit_scope', '_maybe_init', 'current_scope', 'active_scopes')
@@ -201,6 +234,8 @@ class Sched:
   # ---- controller (main thread)
   def run(self):
     install_model_locks()  # idempotent; a real gin lock held by a preempted thread would hang the run
+    _CURRENT[0] = self
+    del _DYNAMIC[:]
     for lk in _INSTALLED.values():
       lk.sched = self
       lk.owner = None
@@ -231,10 +266,15 @@ class Sched:
         self.nsteps += 1
         nxt.sem.release()
         if not self.ctl.acquire(True, self.timeout):
-          raise HangError('thread %d did not reach a scheduling point within %.0fs (label %r)' %
-                          (nxt.id, self.timeout, nxt.label))
+          # the scheduled thread neither finished nor reached a point: it is stuck on something the scheduler does
+          # not own (a real lock, a busy loop).  Reported to the oracle as a hang of this schedule.
+          self.hang = 'thread %d did not reach a scheduling point within %.0fs (last label %r)' % (
+              nxt.id, self.timeout, nxt.label)
+          self.deadlock = True
+          break
     finally:
-      for lk in _INSTALLED.values():
+      _CURRENT[0] = None
+      for lk in list(_INSTALLED.values()) + _DYNAMIC:
         lk.sched = None
         lk.owner = None
         lk.depth = 0
